@@ -81,6 +81,10 @@ class LockStep:
         self.failed = False
         self.last_tag = None
         self.hooks_after = []   # callables(self, op, args) after each call
+        # a MiniDB connection whose readCurrent() may be made to refuse
+        # (data-manager fault): set by checks that store the container
+        self.fault_conn = None
+        self.p_refuse = 0.0
 
     def describe(self):
         return dict(family=self.fam.name, kind=self.kind, impl=self.impl,
@@ -137,7 +141,41 @@ class LockStep:
                       for a in args)
         before = self.walk
         self._pre_contents = self.m.contents()
-        ro = call(self.c, op, rargs)
+        refuse = (self.fault_conn is not None and self.is_tree and
+                  op in SINGLE_KEY_OPS and op in MUTATING_OPS and
+                  self.rng.random() < self.p_refuse)
+        if refuse:
+            self.fault_conn.fail_read_current = 1
+        try:
+            ro = call(self.c, op, rargs)
+        finally:
+            if refuse:
+                self.fault_conn.fail_read_current = 0
+        if refuse and ro[0] == 'exc' and ro[1] == 'DMBoom':
+            # the data manager refused the read dependency: the call must
+            # have failed cleanly
+            rec.evaluations += 1
+            rec.ev(self.impl + ':read-dependency-refused')
+            try:
+                got = harness.contents(self.c, self.is_mapping)
+            except Exception as e:
+                self.violation('contents-raised', op=op, args=brief(args),
+                               detail='%s: %s' % (type(e).__name__, e))
+                return False
+            if not eq(got, self._pre_contents):
+                self.violation('refused-call-changed-contents', op=op,
+                               args=brief(args), observed=brief(got, 300),
+                               expected=brief(self._pre_contents, 300))
+                return False
+            errs, w = structural_checks(self.c, self.is_mapping,
+                                        self.use_check_module)
+            if errs:
+                self.violation('structure', op=op, args=brief(args),
+                               checker=errs[0][0], errors=errs[:4],
+                               after='refused read dependency')
+                return False
+            self.walk = w
+            return True
         mo = call(self.m, op, margs)
         rec.evaluations += 1
         rec.ev('op:' + op)
